@@ -5,6 +5,21 @@ import json, os, subprocess
 ROOT = os.path.dirname(os.path.dirname(os.path.abspath(__file__)))
 
 CLAIMED = {
+ "C11": dict(
+   text="Two LTSs in Coq, safety by closed_sound and bounded return by a verified ranking check, for every reachable state (every cancellation "
+        "instant, every interleaving): (1) child || context || canceller || wait loop of the ptrace and namespace runners — C11_cancel_not_lost "
+        "(once the canceller has acted the program is dead, also when the cancellation arrives before the child's setsid), C11_cancel_truthful "
+        "(the verdict is the program's own iff it ended by itself, else Time Limit Exceeded; never Runner Error), C11_cancel_returns (<= 5 system "
+        "steps); the loss of the pinned tree is C11_pinned_cancel_lost, repaired by a fix: commit; (2) the RPC LTS of C10 — "
+        "C11_cancel_returns_container (a cancelled Execve comes back within 4 steps of host and container whatever the program does) and "
+        "C11_destroy_in_flight.  Tie on every run: cancellation swept over the life of a run in each runner (before the call .. around the "
+        "program's own end), the pre-setsid window widened with a 9000-entry descriptor list, cancellation after the program's end (genuine "
+        "verdict must survive), Destroy 1..100 ms into an Execve; elapsed time, Result, liveness of the program.",
+   note="Partial: 'promptly' is 'within a bounded number of model steps' in the theorems and 'within 60 ms of the cancellation' in the runs; "
+        "signal delivery latency and the scheduler are not modelled.  Trusted: Coq kernel + vm_compute; kernel rule PR1 (kill(-pgid) reaches "
+        "exactly the members of an existing group, ESRCH otherwise); PR3 for Destroy.",
+   technique="Coq proof by reflection over finite LTSs (closure + ranking checks) + swept real cancellations",
+   design="§5 C11"),
  "C10": dict(
    text="The host/container RPC as one labelled transition system in Coq (host call automaton, container server automaton, one FIFO per "
         "direction, the two done flags, ghost call tags on every message; environment: the class of every Execve — refused before fork, empty "
